@@ -96,6 +96,92 @@ def r19_2(prog: Program, chk: Check) -> None:
     chk.ob("R19.2", "name_check_visitor::NameCheckVisitor._visit_binop_no_mvv::result-selection", ok, site, "if only the direct call failed the reflected result is used, otherwise the direct result")
 
 
+def r19_3(prog: Program, chk: Check) -> None:
+    chk.rule("R19.3", "a constant index into a sequence of known length is in range exactly when -n <= k < n (IndexError otherwise); negative indices count from the back", floor=3)
+    from .c01 import index_range_rule, r01_f
+    from .c01 import _Renamed
+
+    index_range_rule(prog, chk, "R19.3")
+    ad = _Renamed(chk, {"R01.f": "R19.3"})
+    # same scan-position obligations as C01 R01.f, for sequences with an unpacked part
+    class _NoRule:
+        def __init__(self, inner): self._i = inner
+        def rule(self, *a, **k): pass
+        def __getattr__(self, n): return getattr(self._i, n)
+    r01_f(prog, _NoRule(ad))  # type: ignore[arg-type]
+
+
+def r19_4(prog: Program, chk: Check) -> None:
+    chk.rule(
+        "R19.4",
+        "the literal inferred for an operation on known operands is the object produced by performing that operation for this "
+        "call: every path that yields the result passes through a call of the callee with these operands (no memo keyed by ==, "
+        "under which 1, 1.0 and True are one key)",
+        floor=1,
+    )
+    from ..cfg import CFG
+
+    m = "name_check_visitor"
+    fn = prog.func(m, "NameCheckVisitor._check_call_no_mvv")
+    res_names = set()
+    for n in walk_no_nested(fn):
+        if isinstance(n, ast.Assign) and isinstance(n.value, ast.Call) and last_attr(n.value) == "KnownValue" and n.value.args and isinstance(n.value.args[0], ast.Name):
+            if any(inbody and "_can_perform_call" in norm(t) for t, inbody in guards_of(n, fn)):
+                res_names.add(n.value.args[0].id)
+    if not res_names:
+        raise AnchorError("_check_call_no_mvv: KnownValue(<result>) under _can_perform_call not found")
+    n_ob = 0
+    for n in walk_no_nested(fn):
+        if not (isinstance(n, ast.Assign) and len(n.targets) == 1 and isinstance(n.targets[0], ast.Name) and n.targets[0].id in res_names):
+            continue
+        if not any(inbody and "_can_perform_call" in norm(t) for t, inbody in guards_of(n, fn)):
+            continue
+        v = n.value
+        key = f"{m}::NameCheckVisitor._check_call_no_mvv::{n.targets[0].id}"
+        n_ob += 1
+        if isinstance(v, ast.Call) and norm(v.func) == "callee_wrapped.val":
+            chk.ob("R19.4", key + "::performed-directly", any(isinstance(a, ast.Starred) for a in v.args), prog.site(m, n), "the callee must be applied to the operand values")
+            continue
+        helper = None
+        idx = None
+        if isinstance(v, ast.Call):
+            for i, a in enumerate(v.args):
+                if norm(a) == "callee_wrapped.val":
+                    idx = i
+            nm = last_attr(v)
+            if idx is not None and nm:
+                if isinstance(v.func, ast.Attribute) and norm(v.func.value) == "self":
+                    hf = prog.find_method("NameCheckVisitor", nm)
+                    if hf is not None:
+                        helper, idx = hf, idx + 1
+                elif isinstance(v.func, ast.Name) and prog.has_func(m, nm):
+                    helper = prog.func(m, nm)
+        if helper is None or idx is None:
+            chk.ob("R19.4", key + "::performed", False, prog.site(m, n), f"`{norm(v)[:80]}` is not an application of callee_wrapped.val and not a resolvable helper receiving it")
+            continue
+        hfn = helper[1] if isinstance(helper, tuple) else helper
+        params = [a.arg for a in hfn.args.posonlyargs + hfn.args.args]
+        if idx >= len(params):
+            raise AnchorError(f"helper {hfn.name}: cannot map the callee argument")
+        f = params[idx]
+        g = CFG(hfn)
+        performing = [st for st in walk_no_nested(hfn) if isinstance(st, ast.stmt) and not isinstance(st, (ast.If, ast.For, ast.While, ast.Try, ast.With)) and any(isinstance(c, ast.Call) and isinstance(c.func, ast.Name) and c.func.id == f for c in ast.walk(st))]
+        bad = []
+        for r in returns_of(hfn):
+            if r.value is None:
+                continue
+            if r in performing:
+                continue
+            if not any(g.dominates(p_, r) for p_ in performing):
+                bad.append(r.lineno)
+        chk.ob("R19.4", key + f"::helper={hfn.name}::every-result-performed", bool(performing) and not bad, prog.site(m, hfn),
+               f"helper {hfn.name} can return a result without calling `{f}` (return at line(s) {bad}): a remembered result of an ==-equal but differently typed operand tuple is inferred as the literal")
+    if n_ob == 0:
+        raise AnchorError("_check_call_no_mvv: assignment of the performed result not found")
+
+
 def run(prog: Program, chk: Check) -> None:
     r19_1(prog, chk)
     r19_2(prog, chk)
+    r19_3(prog, chk)
+    r19_4(prog, chk)
